@@ -12,6 +12,7 @@ import (
 	"errors"
 	"flag"
 	"fmt"
+	"google.golang.org/grpc"
 	"os"
 	"sort"
 	"strings"
@@ -47,24 +48,24 @@ type deps struct {
 }
 
 const (
-	oVerify1 = 0
-	oVerify2 = 1
-	oSave    = 2
-	oRemove  = 3
-	oSeal    = 4
-	oChall   = 5
-	oFlash   = 6 // true = the flash memory already holds the key
-	oRead    = 7
-	oBalHit  = 8
-	oHook    = 9
+	oVerify1     = 0
+	oVerify2     = 1
+	oSave        = 2
+	oRemove      = 3
+	oSeal        = 4
+	oChall       = 5
+	oFlash       = 6 // true = the flash memory already holds the key
+	oRead        = 7
+	oBalHit      = 8
+	oHook        = 9
 	oGossiperSig = 10
 	oDial        = 11
-	mSave    = 0
-	mRemove  = 1
-	mSeal    = 2
-	mChall   = 3
-	mPeer    = 4
-	mHook    = 5
+	mSave        = 0
+	mRemove      = 1
+	mSeal        = 2
+	mChall       = 3
+	mPeer        = 4
+	mHook        = 5
 )
 
 var errStub = errors.New("stub failure")
@@ -185,7 +186,7 @@ func (d *deps) ProvideData(address string) []byte {
 func (d *deps) ValidateData(address string, data []byte) bool { return d.oracle[oChall] }
 
 // telemetry, piper, webhooks
-func (d *deps) CreateUpdateObservableHistogram(name, description string)   {}
+func (d *deps) CreateUpdateObservableHistogram(name, description string)     {}
 func (d *deps) RecordHistogramTime(name string, t time.Duration) bool        { return true }
 func (d *deps) RecordHistogramValue(name string, f float64) bool             { return true }
 func (d *deps) SendTrx(trx *protobufcompiled.Transaction) bool               { return true }
@@ -365,7 +366,34 @@ func specs() []handlerSpec {
 				_, err := gossip.VerifIngestPeerVertex(vertexOf(l, s))
 				return err
 			}},
+		{18, "gossip.processLackingParent(fetch ingress)", []field{{20, hashLens}, {21, hashLens}, {22, hashLens}, {3, hashLens}}, []int{0, 1, 2}, []int{oSeal},
+			func(d *deps, l map[int]int, s map[int]bool) error {
+				l[0], l[1], l[2], l[4], l[5] = 3, 3, 3, 1, 64
+				var answer *protobufcompiled.Vertex
+				if s[2] { // the peer answers with a vertex (otherwise: an error)
+					answer = vertexOf(l, s)
+				}
+				vg := gossip.VerifNewGossiper(nolog{}, time.Second, d, d, d, d, d, d, "url",
+					map[string]protobufcompiled.GossipAPIClient{"peer": &fetchPeer{answer: answer}})
+				var h [32]byte
+				h[0] = 7
+				vg.ProcessLackingParent(ctx, h) // the REAL function (it returns nothing: a normal return is outcome 0)
+				return nil
+			}},
 	}
+}
+
+// fetchPeer answers GetVertex with a fixed vertex (as decoded from the wire) or an error; everything else is unused
+type fetchPeer struct {
+	protobufcompiled.GossipAPIClient
+	answer *protobufcompiled.Vertex
+}
+
+func (p *fetchPeer) GetVertex(ctx context.Context, in *protobufcompiled.SignedHash, opts ...grpc.CallOption) (*protobufcompiled.Vertex, error) {
+	if p.answer == nil {
+		return nil, errStub
+	}
+	return p.answer, nil
 }
 
 type caseOut struct {
